@@ -475,11 +475,11 @@ func describeStruct(e any) (MKey, MPayload, error) {
 	return MKey{}, MPayload{}, fmt.Errorf("unknown struct %T", e)
 }
 
-// ObsRIB appends the observation lines (contents, counters, held ids) of r to t.
-func ObsRIB(t *Trace, r *rib.RIB) error {
+// entsLine renders the contents of r as "n | 'ni key payload | …" (sorted), and the instance names.
+func entsLine(r *rib.RIB) (string, []string, error) {
 	c, err := r.RIBContents()
 	if err != nil {
-		return err
+		return "", nil, err
 	}
 	nis := []string{}
 	for ni := range c {
@@ -503,37 +503,46 @@ func ObsRIB(t *Trace, r *rib.RIB) error {
 		}
 		for _, e := range a.Ipv4Entry {
 			if err := add(e); err != nil {
-				return err
+				return "", nil, err
 			}
 		}
 		for _, e := range a.Ipv6Entry {
 			if err := add(e); err != nil {
-				return err
+				return "", nil, err
 			}
 		}
 		for _, e := range a.LabelEntry {
 			if err := add(e); err != nil {
-				return err
+				return "", nil, err
 			}
 		}
 		for _, e := range a.NextHopGroup {
 			if err := add(e); err != nil {
-				return err
+				return "", nil, err
 			}
 		}
 		for _, e := range a.NextHop {
 			if err := add(e); err != nil {
-				return err
+				return "", nil, err
 			}
 		}
 		sort.Strings(l)
 		ents = append(ents, l...)
 	}
-	line := fmt.Sprintf("obs.ents %d", len(ents))
+	line := fmt.Sprintf("%d", len(ents))
 	for _, e := range ents {
 		line += " | " + e
 	}
-	t.Add("%s", line)
+	return line, nis, nil
+}
+
+// ObsRIB appends the observation lines (contents, counters, held ids) of r to t.
+func ObsRIB(t *Trace, r *rib.RIB) error {
+	line, nis, err := entsLine(r)
+	if err != nil {
+		return err
+	}
+	t.Add("obs.ents %s", line)
 
 	refs := []string{}
 	rc := r.VerifRefCounts()
